@@ -116,6 +116,9 @@ type input struct {
 	// render the history from a generator inside a real gengo run on a synthetic module and observe
 	// the written file (Self must be a package of module c03.test/m; snippet entry points only)
 	Pipeline bool `json:"pipeline,omitempty"`
+	// pipeline only: how the generator spreads the history over the tagged types of the package, and how it ends for
+	// each of them (nil, ErrSkip, ErrIgnore, Defer) — see typeIn in pipeline.go.  Empty: one type, all operations.
+	Types []typeIn `json:"types,omitempty"`
 }
 
 func marshal(in input) json.RawMessage {
@@ -694,10 +697,14 @@ func (prop) Run(raw json.RawMessage, scratch string) core.Result {
 	if pipe {
 		var failure string
 		var notes []string
-		obs, failure, notes = runPipeline(in, scratch)
+		full := in
+		obs, in, failure, notes = runPipeline(in, scratch) // in: the operations whose lines are in the written file
+		if len(full.Types) > 0 {
+			res.Tags = append(res.Tags, pipeTypeTags(full, in)...)
+		}
 		res.Notes = append(res.Notes, notes...)
 		res.Observed = obs
-		res.Tags = []string{"pipeline"}
+		res.Tags = append(res.Tags, "pipeline")
 		if failure != "" {
 			res.GoViolations = append(res.GoViolations, failure)
 		}
@@ -825,6 +832,52 @@ func (prop) Run(raw json.RawMessage, scratch string) core.Result {
 	return res
 }
 
+// distribution of the multi-type pipeline cases
+func pipeTypeTags(full, eff input) []string {
+	tags := []string{"pipeline:types"}
+	others := map[string]bool{} // packages referenced by lines of types that are generated normally
+	for k, t := range full.Types {
+		lo, hi := typeSpan(full, k)
+		if t.End == "" || t.End == "defer" {
+			for i := lo; i < hi; i++ {
+				for _, p := range opPaths(full.Ops[i]) {
+					others[p] = true
+				}
+			}
+		}
+	}
+	for k, t := range full.Types {
+		lo, hi := typeSpan(full, k)
+		if t.End != "" {
+			tags = append(tags, "pipeline:end="+t.End)
+		}
+		if t.Alias {
+			tags = append(tags, "pipeline:alias_type")
+		}
+		if (t.End == "skip" || t.End == "ignore") && hi > lo {
+			tags = append(tags, "pipeline:rendered_then_"+t.End)
+			for i := lo; i < hi; i++ {
+				for _, p := range opPaths(full.Ops[i]) {
+					if p != "" && p != full.Self && !others[p] {
+						tags = append(tags, "pipeline:package_only_referenced_by_a_type_ended_with_"+t.End)
+					}
+				}
+			}
+		}
+	}
+	if len(eff.Ops) < len(full.Ops) {
+		tags = append(tags, "pipeline:lines_dropped_from_body")
+	}
+	sort.Strings(tags)
+	out := tags[:0]
+	for i, t := range tags {
+		if i == 0 || t != tags[i-1] {
+			out = append(out, t)
+		}
+	}
+	return out
+}
+
 // which of the defects of DESIGN.md section 4 (#12, #13) the observed state exhibits
 func symptom(in input, obs observed) string {
 	if ok, _ := structured(in); !ok {
@@ -936,6 +989,12 @@ func tagsOf(in input, obs observed, cmp bool, why string) []string {
 				if i == 0 && len(segs) > 1 && strings.Contains(s, ".") {
 					continue // host name
 				}
+				if s == "vendor" && i < len(segs)-1 && i > 0 {
+					tags["seg:vendor_dir"] = true
+					if !emptyHead && !slicesContains(headPaths(o), p) {
+						tags["seg:vendor_dir_in_type_argument"] = true
+					}
+				}
 				switch {
 				case types.Universe.Lookup(strings.ToLower(s)) != nil:
 					tags["seg:predeclared"] = true
@@ -978,6 +1037,15 @@ func tagsOf(in input, obs observed, cmp bool, why string) []string {
 	return out
 }
 
+func slicesContains(l []string, x string) bool {
+	for _, e := range l {
+		if e == x {
+			return true
+		}
+	}
+	return false
+}
+
 // ---------------------------------------------------------------- shrinking
 
 func (prop) Shrink(raw json.RawMessage) []json.RawMessage {
@@ -991,8 +1059,36 @@ func (prop) Shrink(raw json.RawMessage) []json.RawMessage {
 		_ = json.Unmarshal(b, &c)
 		return c
 	}
+	// a pipeline history spread over several types: whole types and single operations go together with their counts
+	if len(in.Types) > 0 {
+		for k, t := range in.Types {
+			lo, hi := typeSpan(in, k)
+			if len(in.Types) > 1 {
+				c := clone()
+				c.Ops = append(c.Ops[:lo], c.Ops[hi:]...)
+				c.Types = append(c.Types[:k], c.Types[k+1:]...)
+				add(c)
+			}
+			for i := lo; i < hi; i++ {
+				c := clone()
+				c.Ops = append(c.Ops[:i], c.Ops[i+1:]...)
+				c.Types[k].N--
+				add(c)
+			}
+			if t.End == "ignore" || t.End == "defer" {
+				c := clone()
+				c.Types[k].End = ""
+				add(c)
+			}
+			if t.Alias {
+				c := clone()
+				c.Types[k].Alias = false
+				add(c)
+			}
+		}
+	}
 	// fewer operations
-	if len(in.Ops) > 2 {
+	if len(in.Types) == 0 && len(in.Ops) > 2 {
 		c := clone()
 		c.Ops = c.Ops[:len(c.Ops)/2]
 		add(c)
@@ -1001,7 +1097,7 @@ func (prop) Shrink(raw json.RawMessage) []json.RawMessage {
 		add(c)
 	}
 	for i := range in.Ops {
-		if len(in.Ops) > 1 {
+		if len(in.Types) == 0 && len(in.Ops) > 1 {
 			c := clone()
 			c.Ops = append(c.Ops[:i], c.Ops[i+1:]...)
 			add(c)
